@@ -518,7 +518,8 @@ PROPS = {
     "C14": {
         "lean": ["Pdb.Props.C14", "Pdb.Props.C14Dump", "Pdb.Props.C14DumpRc"],
         "harness": [{"cmd": "c09", "quick": 48, "thorough": 600, "timeout": 3000},
-                    {"cmd": "c10", "quick": 100, "thorough": 1500}],
+                    {"cmd": "c10", "quick": 100, "thorough": 1500},
+                    {"cmd": "c02x", "quick": 150, "thorough": 3000}],
         "level_text": ("Lean theorems: IndexInv / SlotInvAbs / NoLeak preserved over all histories (C14_index_inv_preserved, C14_no_leak), "
                        "C14_no_misattribution, C14_remove_returns_slot, C14_fill_mark_moves_only_when_no_free_slot, C14_iter_values_exact on the abstract "
                        "value tables of the index-layer model; the byte-level slot invariant (free list acyclic / in range, chains disjoint, live + free = "
